@@ -117,7 +117,8 @@ def gen_turns(rng: random.Random, world: dict, n=(3, 8), agents=("A", "B", "C"),
     turns = []
     use_plans = plans and rng.random() < 0.5
     for i in range(rng.randint(*n)):
-        txt = " ".join(rng.sample(labs, min(len(labs), rng.randint(1, 3)))) + (f" q{i}" if rng.random() < 0.7 else "")
+        nlab = rng.randint(1, 3) if rng.random() < 0.75 else len(labs)  # sometimes a text naming every label (wide seeding)
+        txt = " ".join(rng.sample(labs, min(len(labs), nlab))) + (f" q{i}" if rng.random() < 0.7 else "")
         t = {"agent": rng.choice(ags), "text": txt, "turn": i + 1, "now_ms": base_ms + i * rng.choice([0, 1000, 86400000])}
         if use_plans:
             nd = rng.choice([0, 1, 2, 4])
